@@ -183,6 +183,8 @@ def report(mod, prop, tier, seed, ctx, results, wall, pre_info, partial=False):
             "queries_failed": len([1 for r in results if r.status == "fail"]),
             "traces_validated_against_impl": sum(len(r.replays) for r in results),
             "solver_time_s": round(sum(r.solver_s for r in results), 2),
+            "ssa_steps_total": sum(r.steps for r in results),
+            "sat_variables_max": max([r.vars for r in results] + [0]),
             "query_wall_s_sum": round(sum(r.wall for r in results), 2),
             "peak_rss_mb": max([r.rss_mb for r in results] + [0]),
             "functions_encoded": repo_funcs,
